@@ -162,8 +162,15 @@ func Packet(r *RNG, t int, mask uint64, size int, dom Domain) *ref.Packet {
 	switch t {
 	case ref.TConnect:
 		p.ProtoName, p.ProtoVer = "MQTT", 5
-		if !dom.WellFormed && r.Chance(1, 16) {
-			p.ProtoName, p.ProtoVer = Pick(r, "MQIsdp", "", "MQTT\x00", "mqtt"), Pick[byte](r, 3, 4, 0, 255)
+		if !dom.WellFormed && r.Chance(1, 8) {
+			// name and level vary independently: a level of 3 or 4 under the
+			// name "MQTT" is what an older client sends
+			if r.Bool() {
+				p.ProtoName = Pick(r, "MQIsdp", "", "MQTT\x00", "mqtt")
+			}
+			if r.Chance(2, 3) {
+				p.ProtoVer = Pick[byte](r, 3, 4, 0, 255, 6, 1, 2, 4, byte(r.Intn(256)))
+			}
 		}
 		if m.has("cleanstart") {
 			p.ConnFlags |= ref.CFCleanStart
@@ -559,4 +566,62 @@ func WithExplicitZeros(r *RNG, ctx int, props []ref.Prop) []ref.Prop {
 		}
 	}
 	return out
+}
+
+// ByteSweepN is the number of cases ByteSweep offers.
+const ByteSweepN = 10 * 256
+
+// ByteSweep returns a packet in which one single-byte field takes the value
+// i%256: every value of the protocol level of a CONNECT that keeps the name
+// "MQTT", of the reason code of each acknowledgement type, and of the codes
+// of SUBACK/UNSUBACK (values between the usual edges are where a special case
+// for one particular value hides).
+func ByteSweep(r *RNG, i int, dom Domain) *ref.Packet {
+	v := byte(i % 256)
+	types := []int{ref.TConnect, ref.TConnAck, ref.TPubAck, ref.TPubRec, ref.TPubRel, ref.TPubComp, ref.TDisconnect, ref.TAuth, ref.TSubAck, ref.TUnsubAck}
+	t := types[(i/256)%len(types)]
+	p := Packet(r, t, RandomMask(r, t), Small, dom)
+	switch t {
+	case ref.TConnect:
+		if dom.WellFormed {
+			p.KeepAlive = uint16(v)<<8 | uint16(^v) // a valid v5.0 CONNECT says level 5
+		} else {
+			p.ProtoName, p.ProtoVer = "MQTT", v
+		}
+	case ref.TSubAck, ref.TUnsubAck:
+		p.Codes = []byte{v, ^v, v}
+	default:
+		p.Reason = v
+		if p.Form != ref.FormFull && v != 0 {
+			p.Form = ref.FormFull
+		}
+	}
+	return p
+}
+
+// GiantSizes are remaining lengths far above what HugePacket reaches: one past
+// the powers of two where a "maximum packet size" guard would sit, and the
+// largest remaining length MQTT allows.
+var GiantSizes = []int{1<<24 + 1, 1<<26 + 1, 1 << 24, 1<<25 + 1, 1<<27 + 1, 268435455}
+
+// GiantPacket returns a PUBLISH whose remaining length is exactly rem.
+func GiantPacket(r *RNG, rem int) *ref.Packet {
+	p := &ref.Packet{Type: ref.TPublish, Topic: "t"}
+	// remaining = 2+1 (topic) + 1 (property length) + payload
+	p.Payload = make([]byte, rem-4)
+	// cheap, position-dependent content
+	x := r.Uint64() | 1
+	for i := 0; i < len(p.Payload); i += 8 {
+		x ^= x << 13
+		x ^= x >> 7
+		x ^= x << 17
+		p.Payload[i] = byte(x)
+		if i+3 < len(p.Payload) {
+			p.Payload[i+3] = byte(x >> 8)
+		}
+	}
+	if len(p.Payload) > 0 {
+		p.Payload[len(p.Payload)-1] = 0xa5
+	}
+	return p
 }
